@@ -43,7 +43,7 @@ def configs_small():
                     continue
                 for buf in (0, 1, 2):
                     for disturb in (None, "cancel", "timeout"):
-                        for send_from in (False, True, "close"):
+                        for send_from in (False, True, "close", "async"):
                             if send_from is True and items < 2:
                                 continue
                             if send_from == "close" and (senders != 1 or disturb):
@@ -68,7 +68,7 @@ def plan(tier, seed):
         pick = [c for c in cfgs if c["senders"] * c["items"] <= 2 and c["receivers"] <= 2]
         n_dfs = 32
         for i in range(n_dfs):
-            shards.append({"kind": "dfs", "configs": pick[i::n_dfs], "cap": 130, "n_random": 130, "seed": seed})
+            shards.append({"kind": "dfs", "configs": pick[i::n_dfs], "cap": 100, "n_random": 90, "seed": seed})
         rest = [c for c in cfgs if c not in pick]
         for i in range(8):
             shards.append({"kind": "random", "configs": rest[i::8], "n_per": 10, "seed": seed * 31 + i})
@@ -120,7 +120,20 @@ def run_schedule(cfg, chooser: Chooser):
                     items = [Item((i, k)) for k in range(cfg["items"])]
                     d.log("call", who, "send_from", items)
                     try:
-                        if cfg["send_from"] == "close":
+                        if cfg["send_from"] == "async":
+                            # the source is an async generator that is suspended (at a gate of its own) before every item
+                            # and once more before it ends: close() and receivers can land while send_from is in progress
+                            # and its source holds no item
+                            async def source():
+                                for it in items:
+                                    if it[1] or not cfg.get("free"):
+                                        await d.gate(who)
+                                    yield it
+                                await d.gate(who)
+
+                            await ch.send_from(source())
+                            d.log("ret", who, "send_from", "ok")
+                        elif cfg["send_from"] == "close":
                             await ch.send_from(items, close=True)
                             d.log("ret", who, "send_from", "ok")
                             d.log("call", "c", "close")
@@ -429,7 +442,7 @@ def history_hash(run) -> str:
 
 
 def cfg_name(cfg) -> str:
-    return (f"s{cfg['senders']}x{cfg['items']}{('fc' if cfg['send_from'] == 'close' else 'f') if cfg['send_from'] else ''}-r{cfg['receivers']}{cfg['mode'][0]}-b{cfg['buf']}"
+    return (f"s{cfg['senders']}x{cfg['items']}{({'close': 'fc', 'async': 'fa'}.get(cfg['send_from'], 'f')) if cfg['send_from'] else ''}-r{cfg['receivers']}{cfg['mode'][0]}-b{cfg['buf']}"
             f"-{cfg['disturb'] or 'nodisturb'}" + ("-free" if cfg.get("free") else ""))
 
 
